@@ -655,7 +655,10 @@ class VariantBase(productmd.common.MetadataBase):
         result = []
 
         if "self" in types:
-            result.append(self)
+            # the arch filter applies to the variant itself as well (the top-level container has no arches)
+            arches = getattr(self, "arches", None)
+            if not arch or arches is None or arch in set(arches).union(["src"]):
+                result.append(self)
 
         for variant in six.itervalues(self.variants):
             if types and variant.type not in types:
